@@ -193,7 +193,8 @@ fn run_bindgen(case: &Case, dir: &Path, wrap_path: &Path, clang_args: &[String],
 pub fn contents_headers(case: &Case) -> Vec<usize> {
     match case.mode {
         Mode::Contents => (0..case.headers.len()).collect(),
-        Mode::Mixed => vec![case.headers.len() - 1],
+        // unsaved files are `-include`d in front of the main header: the in-memory header comes first
+        Mode::Mixed => vec![0],
         _ => vec![],
     }
 }
@@ -215,7 +216,7 @@ fn prelude(case: &Case, dir: &Path) -> String {
     s
 }
 
-fn prepare(case: Case, a: bool, root: &Path) -> Prep {
+fn prepare(case: Case, a: bool, root: &Path, have_model: bool) -> Prep {
     let dir = root.join(format!("case{}", case.id));
     std::fs::create_dir_all(&dir).unwrap();
     let suffix = case.suffix.clone().unwrap_or_else(|| DEFAULT_SUFFIX.to_owned());
@@ -240,6 +241,25 @@ fn prepare(case: Case, a: bool, root: &Path) -> Prep {
         case, dir, a, suffix, clang_args, flags_desc, gen, wrapper_path, wrapper_text, expected_text: None, model_expects_error: false,
         fns: vec![], disagreements: vec![], ir_ast_mismatch: vec![],
     };
+    if !have_model {
+        // oracle-only mode (the model driver is not available): no expectations from the model
+        if let Ok(ff) = foreign_fns(p.gen.bindings.as_deref().unwrap_or("")) {
+            for (fi, f) in p.case.funcs.iter().enumerate() {
+                let canon = if RUST_KEYWORDS.contains(&f.name.as_str()) { format!("{}_", f.name) } else { f.name.clone() };
+                let mut fp = FnPrep { fi, in_ir: true, names_identical: true, ..Default::default() };
+                fp.binding = ff.get(&canon).map(|l| (canon.clone(), l.clone()));
+                fp.canon = canon;
+                p.fns.push(fp);
+            }
+        }
+        if let Some(w) = &p.wrapper_text {
+            for fp in p.fns.iter_mut() {
+                let needle = format!(" {}{}(", p.case.funcs[fp.fi].name, p.suffix);
+                fp.line = w.lines().position(|l| l.contains(&needle) && !l.starts_with("#include") && !l.starts_with("//")).map(|k| k + 1);
+            }
+        }
+        return p;
+    }
     let irdump = p.gen.log.as_deref().map(bgverif::irdump::parse_log);
     let ir = irdump.as_ref().and_then(|l| l.dumps.last()).map(|d| ir::read(d));
     let Some(ir) = ir else {
@@ -448,7 +468,7 @@ fn main() {
     let args = Args::parse();
     drive::quiet_panics();
     let thorough = args.thorough();
-    let mut n_cases: usize = if thorough { 2000 } else { 80 };
+    let mut n_cases: usize = if thorough { 2000 } else { 120 };
     let mut only: Option<usize> = None;
     let mut it = args.extra.iter();
     while let Some(a) = it.next() {
@@ -458,8 +478,13 @@ fn main() {
             _ => {}
         }
     }
-    let arms = util::model(&["cdecl arms".to_owned()]);
-    let a = arms.first().map(|s| s.trim() == "a=1").unwrap_or(false);
+    let have_model = std::env::var("C16_NO_MODEL").is_err();
+    let a = if have_model {
+        let arms = util::model(&["cdecl arms".to_owned()]);
+        arms.first().map(|s| s.trim() == "a=1").unwrap_or(false)
+    } else {
+        false
+    };
     let root = args.out.join("work");
     std::fs::create_dir_all(&root).unwrap();
     let mut master = Rng::new(args.seed);
@@ -470,7 +495,7 @@ fn main() {
             continue;
         }
         let case = gen_case(&mut r, id, thorough);
-        preps.push(prepare(case, a, &root));
+        preps.push(prepare(case, a, &root, have_model));
     }
     let link_budget_cpp = if thorough { 4 } else { 1 };
     let outs = oracle::run_all(&preps, link_budget_cpp, only.is_some());
